@@ -78,18 +78,29 @@ def make_positions(n, d, kind, seed):
     return [[sh + sc * (0.5**k) * p[k] for k in range(d)] for p in u]
 
 
-def make_problem(shape, akind, ekind, d, pkind, seed):
+SPREAD = [1.0, 2.0, 5.0, 0.5, 3.0]  # relative pattern of the "spread" errors (a factor 10 between the extremes)
+DATA_SCALES = [1e-9, 1e-6, 1e6, 1e9]  # units of the data: y, y_err and the model matrix are all multiplied by it
+
+
+def make_problem(shape, akind, ekind, d, pkind, seed, scale=None):
     m, n = shape
     A = make_matrix(m, n, akind, seed)
     X = make_positions(n, d, pkind, seed)
     xt = [0.4 + math.sin(1.7 * j + 0.3 * seed) for j in range(n)]
     if ekind == "uniform":
         e = [[0.1, 0.5][seed % 2]] * m
+    elif ekind == "spread":  # moderately heteroscedastic: 0.1 x {1, 2, 5, 0.5, 3}
+        e = [0.1 * SPREAD[(i + seed) % len(SPREAD)] for i in range(m)]
     else:  # mixed 1e-3 .. 1, geometric
         e = [10.0 ** (-3.0 * (1.0 - i / max(1, m - 1))) for i in range(m)] if m > 1 else [1e-3]
         e = e[seed % m :] + e[: seed % m]
     y = [sum(A[i][j] * xt[j] for j in range(n)) + e[i] * math.cos(5.0 * (i + 1 + seed)) for i in range(m)]
-    return {"A": A, "X": X, "y": y, "y_err": e, "shape": [m, n], "akind": akind, "ekind": ekind, "d": d, "pkind": pkind, "noise": "inv"}
+    prob = {"A": A, "X": X, "y": y, "y_err": e, "shape": [m, n], "akind": akind, "ekind": ekind, "d": d, "pkind": pkind, "noise": "inv"}
+    if scale is not None:
+        # the same problem with the data expressed in another unit: the parameters, the prior and hence the posterior are
+        # unchanged (the evidence moves by -m log scale); the reference works on exactly these floats
+        prob.update(A=[[scale * v for v in row] for row in A], y=[scale * v for v in y], y_err=[scale * v for v in e], scale=scale)
+    return prob
 
 
 def scales(prob):
@@ -195,6 +206,10 @@ def ev_inverter(case):
     kn = c11.kname(kspec)
     acls = "%s-%s" % (detclass(prob["shape"]), prob["akind"])
     cfg = "A=%dx%d-%s,yerr=%s,d=%d,pos=%s,k=%s,m=%s" % (m, n, prob["akind"], prob["ekind"], d, prob["pkind"], kn, mspec)
+    if prob.get("scale") is not None:
+        # data in other units: own keys (the number is the lattice label of the unit, not a measured quantity)
+        acls += ",data-unit=%s,yerr=%s" % ("small" if prob["scale"] < 1 else "large", prob["ekind"])
+        cfg += ",data-unit=%g" % prob["scale"]
     pcls = c11.param_classes(kspec, mspec, d)
     pm = G.mean_n_params(mspec, d)
     S = [[(G.M(e[i]) ** 2 if i == j else G.ZERO) for j in range(m)] for i in range(m)]
@@ -644,6 +659,17 @@ def run(ck):
                                 npoints += len(thetas)
                                 for blk in chunks(thetas, 9 if quick else 27):
                                     cases.append({"problem": prob, "kernel": kspec, "mean": mspec, "thetas": blk})
+    # ---------------------------------------------------------------- data in units far from 1 (y, y_err, model matrix x 1e-9 .. 1e9)
+    nscaled = 0
+    for ci, (scale, ekind, shape) in enumerate(itertools.product(DATA_SCALES, ("spread", "uniform", "mixed"), SHAPES)):
+        rot = seed + ci
+        combos = [(KERNELS[rot % 4], MEANS[(rot // 4) % 3])] if quick else [(k, mm) for k in KERNELS for mm in ("C", "L")] + [(KERNELS[rot % 4], "N")]
+        for kspec, mspec in combos:
+            prob = make_problem(shape, AKINDS[0] if ci % 2 == 0 else AKINDS[rot % 3], ekind, 1 + rot % 2, pk1[rot % 3], seed, scale=scale)
+            thetas = hp_lattice(kspec, mspec, prob, (9, rot))
+            npoints += len(thetas)
+            nscaled += len(thetas)
+            cases.append({"problem": prob, "kernel": kspec, "mean": mspec, "thetas": thetas})
     # ---------------------------------------------------------------- call histories on one object
     hist = []
     nhist = 0
@@ -706,7 +732,9 @@ def run(ck):
         "cartesian lattice: model matrices {1x3,3x3,5x3,3x5} x {dense, rank-deficient, zero row} x y_err {uniform, mixed 1e-3..1} x positions "
         "(d in 1,2; regular / irregular / one duplicated position) x kernels (SE, RQ, SE+WN, CP(SE,SE)) x means (constant, linear) x "
         "{low,mid,high} per hyper-parameter block (quick: a Latin ninth of the hyper-parameter product); distinct = (configuration, decade of "
-        "cond(I + K A^T S^-1 A)); means include a user-defined MeanFunction subclass exp(a) sin(b x_0 + c), non-linear in its hyper-parameters. "
+        "cond(I + K A^T S^-1 A)); data units: the same problems with y, y_err and the model matrix multiplied by 1e-9, 1e-6, 1e6, 1e9 x y_err {0.1 x (1,2,5,0.5,3) "
+        "'spread', uniform, mixed 1e-3..1} x the four layouts (kernel, mean, matrix kind, dimension rotating in quick; all kernels x {C,L} in thorough), a Latin ninth of the "
+        "hyper-parameter product each, against the 50-digit closed form on the same floats with the same conditioning-derived tolerances (keys .../data-unit=small|large,yerr=...); means include a user-defined MeanFunction subclass exp(a) sin(b x_0 + c), non-linear in its hyper-parameters. "
         "history: kernels x means x model-matrix layouts (quick: one rotating layout, thorough all four) x hyper-parameter triples "
         "{all blocks differ, mean-only / covariance-only differences} (quick: one, rotating) x caller conventions {fresh array per call, ONE array "
         "overwritten in place between calls, the same and the returned arrays overwritten by the caller}: every sequence of 1, 2 and 3 calls over "
@@ -724,10 +752,12 @@ def run(ck):
     ck.assume("interleaving: 2 or 3 live inverter objects, <= 4 calls (<= 3 for three objects), 2 hyper-parameter vectors per object; the caller gives each object its own kernel / mean instances")
     ck.assume("call histories are limited to 3 calls over 4 methods x 3 hyper-parameter vectors on one object; agreement with a fresh object is required bit-for-bit or to 1e-12 of the largest entry of the result")
     ck.assume("the user-defined mean function is the one written in checks/c17.py (exp(a) sin(b x_0 + c), stateless); other user classes are represented by it")
+    ck.assume("data units: y, y_err and the model matrix are scaled together (1e-9 .. 1e9); the parameters and the prior stay of order one")
     ck.assume("continuous inputs are represented by the listed finite lattices; at most 5 parameters / 5 data (50-digit reference); points with cond(A K A^T + S) or cond(I + K A^T S^-1 A) > 1e10 are skipped and counted")
     ck.assume("the diagonal stabiliser of smooth kernels is accepted as any relative inflation in [0,1e-10] of the kernel diagonal (measured from the model's prior covariance)")
     ck.assume("optimize_hyperparameters (Nelder-Mead) is not part of the statement and is not exercised")
     ck.extra["lattice_points"] = npoints
+    ck.extra["lattice_points_scaled_units"] = nscaled
     ck.extra["history_blocks"] = len(hist)
     ck.extra["histories"] = nhist
     ck.extra["interleave_blocks"] = len(inter)
